@@ -262,7 +262,9 @@ class GMDistribution:
 
     @staticmethod
     def _normalize_params(means, weights):
-        means = np.atleast_1d(np.squeeze(means))
+        means = np.atleast_1d(means)
+        # Drop singleton axes except the first one, which indexes the mixture components
+        means = np.squeeze(means, axis=tuple(i for i in range(1, means.ndim) if means.shape[i] == 1))
         if means.ndim > 2:
             raise ValueError('means.ndim = {} but must be at most 2.'.format(means.ndim))
 
